@@ -75,6 +75,18 @@ pub fn check_step(ctx: &mut Ctx, s: &Step) -> Result<(), Violation> {
     if p.ep.is_some() {
         ctx.class(if p.ep_adjacent_pawn() { "pos:ep-state-recorded" } else { "pos:ep-target-only" });
     }
+    // boards obtained through the deprecated editing API are boards too (one position in four)
+    if fp(&(p, "c18-ways")) % 4 == 0 {
+        for (vp, vb, how) in super::editapi::other_ways(p, s.board, 2) {
+            if how.starts_with("null_move") {
+                continue;
+            }
+            ctx.evals_add(1);
+            ctx.class("null:on-board-from-editing-api");
+            let c2 = || s.case_with(json!({"obtained_through": how, "position_checked": vp.fen()}));
+            check_null(ctx, &vp, &vb, &c2)?;
+        }
+    }
     let r = check_null(ctx, p, s.board, &case)?;
     let mut nontrivial = p.in_check(p.stm) || (p.ep.is_some() && p.ep_adjacent_pawn());
     if let Some((np, nb)) = r {
